@@ -16,7 +16,7 @@ PROPS = {
     "C01": dict(
         title="A DAG call returns exactly what the plain Python function would return",
         core=["REF-DEREF", "REF-KEY", "REF-FIELDS", "REF-ASDICT"],
-        aux=["REF-MAT", "REF-SHAPE", "REF-OPS", "REF-NI", "SCH-ARMS", "OWN-ARGS"],
+        aux=["REF-MAT", "REF-SHAPE", "REF-OPS", "REF-NI", "SCH-ARMS", "OWN-ARGS", "REF-GETITEM", "REF-RESERVED", "REF-TRACE", "VAL-ARGCOUNT", "OWN-STRICT"],
         explanation="Necessary structural conditions of value equivalence, re-derived from source on every run: every reference "
                     "(node id + key path) is dereferenced only through the accessor; key paths survive every re-identification; "
                     "every reference field is handled at every reference-handling site and restored after dataclasses.asdict; "
@@ -28,7 +28,7 @@ PROPS = {
     "C02": dict(
         title="No node starts before all of its dependencies have finished",
         core=["SCH-ORIGIN", "SCH-RSET", "SCH-DONE", "SCH-PRUNE", "REF-FIELDS"],
-        aux=["SCH-ROOTS", "REF-DEREF", "REF-MAT", "ERR-CHECK", "SCH-TASKDONE", "REF-SEED"],
+        aux=["SCH-ROOTS", "REF-DEREF", "REF-MAT", "ERR-CHECK", "SCH-TASKDONE", "REF-SEED", "SCH-BIDICT"],
         explanation="Inductive argument over all loop paths of the scheduler: INV 'every id in the runnable set has in-degree 0 in "
                     "the remaining graph, which holds exactly the unfinished selected nodes' is established by the prune and "
                     "preserved by every event class (selection, removal, dispatch, wait, release of successors); a dispatch only "
@@ -49,7 +49,7 @@ PROPS = {
     "C04": dict(
         title="At most max_concurrency pooled nodes in flight; resources decide the thread",
         core=["SCH-BOUND", "SCH-COUNT"],
-        aux=["SCH-ARMS", "VAL-MAXC", "SIB-FWD-SCHED"],
+        aux=["SCH-ARMS", "VAL-MAXC", "SIB-FWD-SCHED", "SCH-POOLSIZE", "VAL-CONF"],
         explanation="On every path reaching a pooled dispatch either a live guard literal implies in-flight < max or every in-flight "
                     "set was waited on since the last submission; the count covers every set that receives futures; sets shrink "
                     "only through waits; resource -> dispatch-kind mapping exhaustive and correct; max_concurrency >= 1 validated "
@@ -60,7 +60,7 @@ PROPS = {
     "C05": dict(
         title="A sequential node never overlaps any other node of its execution",
         core=["SCH-SEQ-PRE", "SCH-SEQ-POST"],
-        aux=["SCH-COUNT", "SCH-ARMS"],
+        aux=["SCH-COUNT", "SCH-ARMS", "VAL-CONF", "VAL-EXPAND"],
         explanation="Pre-guard fact 'not sequential or nothing in flight' is live at every dispatch of every loop path; after a "
                     "pooled dispatch of a possibly sequential node its in-flight set is drained before the loop head.",
         not_decided="nothing structural; wait primitives trusted",
@@ -69,7 +69,7 @@ PROPS = {
     "C06": dict(
         title="The node that starts is always a highest-compound-priority ready node",
         core=["SCH-PRIO", "GT-CARRY", "SCH-FRESHPICK"],
-        aux=["GT-PRIO-SINK", "SCH-RSET", "GT-FORMULA"],
+        aux=["GT-PRIO-SINK", "SCH-RSET", "GT-FORMULA", "GT-POP"],
         explanation="The choice is max over the whole runnable set keyed by the executed graph's own compound-priority table; "
                     "nothing can enlarge the runnable set between choice and dispatch; the table is populated on every path by "
                     "which a graph reaches the scheduler (typestate over graph values).",
@@ -80,7 +80,7 @@ PROPS = {
     "C07": dict(
         title="Compound priority is a deterministic, documented function of the DAG",
         core=["GT-CARRY", "GT-FORMULA"],
-        aux=["GT-RECONF", "GT-POP", "GT-MODEL", "VAL-CONF"],
+        aux=["GT-RECONF", "GT-POP", "GT-MODEL", "VAL-CONF", "VAL-EXPAND"],
         explanation="Typestate: tables carried through every sub-graph derivation; the computation has no order-dependent "
                     "iteration with loop-carried dependence and no accumulation of a child's compound value (path counting) and "
                     "matches the accepted shape 'own priority + fold over a reachability closure of own priorities'; recomputed "
@@ -111,7 +111,7 @@ PROPS = {
     "C10": dict(
         title="twz_active runs a node iff the supplied value is truthy; otherwise None",
         core=["REF-DEREF", "SCH-DEACT", "REF-FIELDS"],
-        aux=["SCH-ACTIVE", "REF-FLAGPRED", "REF-KEY", "REF-ASDICT", "REF-ACTIVE-BUILD"],
+        aux=["SCH-ACTIVE", "REF-FLAGPRED", "REF-KEY", "REF-ASDICT", "REF-ACTIVE-BUILD", "REF-GETITEM"],
         explanation="The flag is decided by the truthiness of the reference dereferenced through the accessor (key path applied); "
                     "deactivated arm = no dispatch + graph removal + release of successors; the flag is a dependency edge; the "
                     "nested-DAG flag is attached to stubs and inner nodes under one presence predicate.",
@@ -131,7 +131,7 @@ PROPS = {
     "C12": dict(
         title="target / exclude / root selection executes exactly the documented closure",
         core=["GT-SELECT"],
-        aux=["GT-ALIAS", "REF-MAT", "SIB-FWD", "GT-PRESENCE"],
+        aux=["GT-ALIAS", "REF-MAT", "SIB-FWD", "GT-PRESENCE", "GT-POP"],
         explanation="Three guarded steps in dominance order roots -> exclude -> targets, each with the right closure primitive "
                     "(descendants incl. self / ancestors incl. self); alias order node, tag, id; the ValueErrors are reachable and "
                     "unconditional under their tests; unexecuted ids read as None.",
@@ -151,7 +151,7 @@ PROPS = {
     "C14": dict(
         title="A failing node fails the call, names itself, and starts nothing downstream",
         core=["ERR-WRAP", "ERR-CHECK", "ERR-NOSWALLOW"],
-        aux=["SCH-DONE", "SCH-EXIT", "ERR-CTX"],
+        aux=["SCH-DONE", "SCH-EXIT", "ERR-CTX", "SCH-BIDICT"],
         explanation="The node call is wrapped with id + call location 'from e'; every newly done future is checked before the "
                     "wait helper returns and before the node is removed from the graph; no handler between the check and the API "
                     "boundary; context managers around the node call do not suppress.",
@@ -161,7 +161,7 @@ PROPS = {
     "C15": dict(
         title="Calls do not leak state: a DAG (and an executor) behaves as if freshly built",
         core=["OWN-RUN", "OWN-ARGS", "OWN-CONSUME"],
-        aux=["OWN-WRITEBACK", "VAL-EXECUTED", "OWN-COMPOSE", "OWN-SCHEDCOPY", "VAL-SETUPARG"],
+        aux=["OWN-WRITEBACK", "VAL-EXECUTED", "OWN-COMPOSE", "OWN-SCHEDCOPY", "VAL-SETUPARG", "VAL-ARGCOUNT"],
         explanation="Ownership: run paths mutate only objects they created, executor fields, or the licensed setup write-back; "
                     "arguments are written into a copy; a consumed graph is fresh per call.",
         not_decided="equality of outcomes over histories (implied by non-interference, which is what is checked)",
@@ -210,7 +210,7 @@ PROPS = {
     "C20": dict(
         title="Calling a DAG inside a DAG is equivalent to inlining it",
         core=["REF-PREFIX", "REF-ASDICT", "REF-KEY", "REF-SEED"],
-        aux=["LCK-PAIR", "REF-SHAPE", "REF-UNIQ", "REF-FLAGPRED"],
+        aux=["LCK-PAIR", "REF-SHAPE", "REF-UNIQ", "REF-FLAGPRED", "REF-GETITEM", "REF-TRACE"],
         explanation="Every inner id reaching an outer table passes the prefixer exactly once; stub ids are not seeded with "
                     "defaults; asdict restoration of every reference field; return-shape agreement; prefix push/pop paired; "
                     "registration ids call-site unique (reports the known collision).",
